@@ -183,12 +183,19 @@ pub fn get_apid_for_tag(namespace: u32, tag: &str) -> DltChar4 {
                         "get_apid_for_tag iteration {} apid {} for tag {} exists already for tag {}",
                         iteration, apid, tag, k
                     ); */
+                    if iteration >= 9999 {
+                        // all candidates (abbrevation, abbrevation shortened + 1..=9999) are in use already and
+                        // numbers with more digits don't fit into the 4 chars (they'd repeat earlier candidates
+                        // forever). We use the last candidate even though it's not unique.
+                        map.insert(tag.to_owned(), apid.to_owned());
+                        return apid;
+                    }
                     iteration += 1;
                 } else {
                     map.insert(tag.to_owned(), apid.to_owned());
                     return apid;
                 }
-            } // todo abort after >100 iterations with a default?
+            }
         }
     }
 }
